@@ -337,15 +337,35 @@ def make_func(ctx: Ctx, spec: dict, flavour: str):
         # a function whose code differs from its re-declared twin ONLY in the roles of two constants: the node's identity is
         # passed through a global (not a code constant), the two constants are literals in the body and end up in the arguments
         src = src.replace(f"_impl('{fid}', {args})", "_impl(_fid, (" + "".join(f"{p}, " for p in params) + "".join(f"{c!r}, " for c in consts) + "))")
+    pyname = _pyname(fid)
+    filename = None
+    if spec.get("indent") is not None and src.startswith("def ") and not spec.get("gen_style"):
+        # a function WITH retrievable source (like one written in a file) whose twin differs from it in nothing but the
+        # indentation of one statement: inside the loop it runs twice, behind the loop once
+        pyname = _pyname(spec["name"])
+        ind = "        " if spec["indent"] == 0 else "    "
+        src = (f"def {pyname}({sig}){ret}:\n    _x = ()\n    for _j in (0, 1):\n        pass\n{ind}_x = _x + (_j,)\n"
+               f"    return _impl(_fid, (" + "".join(f"{p}, " for p in params) + "_x,))\n")
+        _SRC_SEQ[0] += 1
+        filename = f"/hgverif-generated/{pyname}_{_SRC_SEQ[0]}.py"
+        import linecache
+
+        linecache.cache[filename] = (len(src), None, src.splitlines(True), filename)
     ns = {"_impl": _impl, "_fid": fid}
     for p, v in defaults.items():
         ns[f"_d_{p}"] = v
     for p, t in ann.items():
         ns[f"_t_{p}"] = TYPES[t] if isinstance(t, str) else t
-    exec(src, ns)
-    fn = ns[_pyname(fid)]
+    if filename is not None:
+        exec(compile(src, filename, "exec"), ns)
+    else:
+        exec(src, ns)
+    fn = ns[pyname]
     ctx.funcs[key] = fn
     return fn
+
+
+_SRC_SEQ = [0]
 
 
 def _pyname(fid: str) -> str:
